@@ -573,6 +573,19 @@ class UnitIndex(object):
             return self.parse_type(self.typedefs[s])
         raise AnalysisBroken('cannot parse type %r in %s' % (qt, self.unit.path))
 
+    def file_scope_vars(self):
+        """Names of mutable variables defined at file scope in this unit's own source files (not system headers)."""
+        r = getattr(self, '_fsv', None)
+        if r is None:
+            r = set()
+            for n in walk(self.unit.ast):
+                if n.get('kind') == 'VarDecl' and n.get('_fn') is None and n.get('storageClass') != 'extern' and str(n.get('_file') or '').startswith(REPO + '/'):
+                    qt = n['type']['qualType']
+                    if 'const' not in qt.split('[')[0].split('*')[-1].split():
+                        r.add(n.get('name'))
+            self._fsv = r
+        return r
+
     def type_of(self, node):
         t = node.get('type')
         if not t:
